@@ -531,3 +531,15 @@ func (g *FG) Dump(w io.Writer) {
 		fmt.Fprintln(w)
 	}
 }
+
+// nodeCount: number of nodes in the sub-tree (used to pick the innermost of several enclosing statements).
+func nodeCount(r ast.Node) int {
+	k := 0
+	ast.Inspect(r, func(m ast.Node) bool {
+		if m != nil {
+			k++
+		}
+		return true
+	})
+	return k
+}
